@@ -233,7 +233,17 @@ def run(spec):
                 if not (0 <= free <= cap):
                     V.append(["C08", "free-space-out-of-range", f"free space {free} not in [0, {cap}]"])
                 elif free != cap - segs:
-                    V.append(["C08", "free-space-differs-from-capacity-minus-segments", f"all clients idle: free {free} != capacity {cap} - segment bytes {segs}"])
+                    # a disk thread of the server may be in the middle of a page-in / page-out (space moved, segment not yet): with
+                    # every client still paused, only a difference that is still there -- unchanged -- after 5 s is a finding
+                    t_m = time.time()
+                    cur = prev
+                    while time.time() - t_m < 5 and cur[1] != cap - cur[0]:
+                        time.sleep(0.25)
+                        cur = (seg_bytes(prefix), client.get_free_space())
+                    if cur[1] != cap - cur[0]:
+                        V.append(["C08", "free-space-differs-from-capacity-minus-segments", f"all clients idle for 5 s: free {cur[1]} != capacity {cap} - segment bytes {cur[0]}"])
+                    else:
+                        res["stats"]["barrier_transient_mismatches"] = res["stats"].get("barrier_transient_mismatches", 0) + 1
             pause.clear()
             next_barrier = time.time() + 0.4
             if V:
